@@ -514,7 +514,7 @@ impl Prop for C04 {
         false
     }
     fn n_cases(&self, tier: Tier) -> u64 {
-        tier.pick(6000, 300_000)
+        tier.pick(60_000, 300_000)
     }
     fn time_cap_s(&self, tier: Tier) -> u64 {
         tier.pick(100, 1200)
